@@ -560,7 +560,10 @@ impl<T: Encode + BitStore, O: BitOrder> Encode for BitVec<T, O> {
         session: &mut Session,
     ) -> io::Result<()> {
         encoder.emit_usize(self.len())?;
-        let underlying = self.as_raw_slice();
+        // the live bits must start at bit 0 of the first storage word
+        let mut aligned = self.clone();
+        aligned.force_align();
+        let underlying = aligned.as_raw_slice();
         for item in underlying {
             item.encode(encoder, plugin, session)?;
         }
